@@ -10,6 +10,10 @@
         broadcast use axiom_pair_clone;
         broadcast use axiom_comparator_total;
 //@ envcall into vec_into_arc new_addrs
+//@ beforecall store 1
+        // trigger term for the `exists .. is_insert(v, new@, k, new@[k])` precondition of ArcSwap::store (the
+        // code need not index the new vector itself)
+        let ghost __inserted = new_addrs@[idx as int];
 //@ closure binary_search_by 1 optional
 |x: &(IpAddr, Arc<RtrMetricsData>)| -> (r: Ordering) ensures r == ip_cmp(x.0, addr)
 //@ closure binary_search_by 2 optional
